@@ -222,16 +222,30 @@ extern "C" int LLVMFuzzerTestOneInput(const uint8_t *data, size_t size)
         attrs.insert(name, variantFrom(fdp, mode));
     }
     const bool colour = fdp.ConsumeBool();
-    const int width = fdp.ConsumeIntegralInRange<int>(-3, 40);
+    const int width = fdp.ConsumeIntegralInRange<int>(-3, 250);
+    const int seqMode = fdp.ConsumeIntegralInRange<int>(0, 3);
     QString sdkName = text(fdp, chunk(fdp, 16), mode), sdkVer = text(fdp, chunk(fdp, 8), mode);
     QString msg = text(fdp, fdp.ConsumeRemainingBytesAsString(), mode);
     QMessageLogContext ctx(nullFile ? nullptr : file.c_str(), line, nullFunc ? nullptr : func.c_str(), nullCat ? nullptr : cat.c_str());
     LogMessage lmsg(kTypes[typeIdx], ctx, msg);
     lmsg.setAttributes(attrs);
     {
+        // the formatter keeps state between messages (thread table, width of the category column): one object sees a sequence of
+        // messages whose categories differ in length - the long one first, then a short / the default / no category, then the long one again
+        const std::string cat2 = seqMode == 1 ? cat.substr(0, cat.size() / 4) : seqMode == 2 ? cat + "x" : std::string("default");
+        QMessageLogContext ctx2(nullFile ? nullptr : file.c_str(), line, nullFunc ? nullptr : func.c_str(), seqMode == 3 ? nullptr : cat2.c_str());
+        LogMessage lmsg2(kTypes[(typeIdx + 1) % 5], ctx2, msg.left(40));
         PrettyFormatter pf(colour, width);
-        (void)pf.format(lmsg);
+        const QString p1 = pf.format(lmsg);
         (void)pf.format(lmsg); // second call takes the "known thread / known category width" path
+        const QString p2 = pf.format(lmsg2);
+        (void)pf.format(lmsg);
+        const QString p3 = pf.format(lmsg2);
+        if (p2 != p3)
+            violation("PrettyFormatter: the same short-category message formatted twice in a row of the same sequence differs", p2.left(300), p3.left(300));
+        // the pretty line is text: whatever the widths, it never contains a NUL the message did not bring
+        if (mode != 2 && !msg.contains(QChar(0)) && (p1.contains(QChar(0)) || p2.contains(QChar(0))))
+            violation("PrettyFormatter output contains U+0000 although no input did", p2.left(300));
     }
     {
         JsonFormatter jc(true), ji(false);
